@@ -1,5 +1,5 @@
 (** Proofs about Model/CalExpandFull.v (properties C17 and C19). *)
-From Coq Require Import List NArith ZArith Bool Lia Arith.
+From Coq Require Import List NArith ZArith Bool Lia Arith Sorted.
 From QV Require Import Model.CalExpandFull.
 Import ListNotations.
 
@@ -772,4 +772,407 @@ Proof.
   intro H. apply expand_program_spec in H. destruct H as [outs [HF [_ Hr]]]. exists outs. split; [exact HF|].
   intros nm ty ln Hin. rewrite Hr. apply fold_insert_declares. exists (ty, ln).
   apply in_flat_map. exists (IDeclare nm ty ln). split; [exact Hin | left; reflexivity].
+Qed.
+
+(** * Part F: the source map (C19) *)
+
+Section WFSec.
+  Variable inst : instr -> option (list instr * calsrc).
+
+  (** Well-formed walk over the entries of one level.  [WFentry srcl outl ns c e ns' c']: with [ns]
+      the least admissible source index and [c] the next uncovered target index, entry [e] is
+      correct and moves the state to [(ns', c')].  [srcl]: the source instructions of this level
+      (program body, or the substituted body of the calibration one level up); [outl]: the output
+      instructions of this level (the parent's range). *)
+  Inductive WFentry : list instr -> list instr -> N -> N -> entry -> N -> N -> Prop :=
+  | WFE_unmod srcl outl ns c s x :
+      (ns <= s)%N -> nthN srcl s = Some x -> nthN outl c = Some x ->
+      WFentry srcl outl ns c (EUnmod s c) (N.succ s) (N.succ c)
+  | WFE_rewr srcl outl ns c s src hi sub x body nsb :
+      (ns <= s)%N -> (c <= hi)%N -> (hi <= len outl)%N ->
+      nthN srcl s = Some x -> inst x = Some (body, src) ->
+      WFwalk body (slice outl c hi) 0 0 sub nsb (hi - c) ->
+      WFentry srcl outl ns c (ERewr s src c hi sub) (N.succ s) hi
+  with WFwalk : list instr -> list instr -> N -> N -> list entry -> N -> N -> Prop :=
+  | WFW_nil srcl outl ns c : WFwalk srcl outl ns c [] ns c
+  | WFW_cons srcl outl ns c e r ns1 c1 ns' c' :
+      WFentry srcl outl ns c e ns1 c1 -> WFwalk srcl outl ns1 c1 r ns' c' ->
+      WFwalk srcl outl ns c (e :: r) ns' c'.
+
+  Scheme WFentry_mind := Induction for WFentry Sort Prop
+    with WFwalk_mind := Induction for WFwalk Sort Prop.
+
+  (** the whole map: the walk starts at (0,0) and covers the output exactly *)
+  Definition WFmap (src out : list instr) (m : list entry) : Prop :=
+    exists ns, WFwalk src out 0 0 m ns (len out).
+
+  (** ** basic facts *)
+
+  Lemma len_app {A} (a b : list A) : len (a ++ b) = (len a + len b)%N.
+  Proof. unfold len. rewrite app_length. lia. Qed.
+
+  Lemma nthN_app_l {A} (l a : list A) n x : nthN l n = Some x -> nthN (l ++ a) n = Some x.
+  Proof.
+    unfold nthN. intro H. rewrite nth_error_app1; auto. apply nth_error_Some. congruence.
+  Qed.
+
+  Lemma nthN_app_len {A} (l : list A) x r : nthN (l ++ x :: r) (len l) = Some x.
+  Proof.
+    unfold nthN, len. rewrite Nat2N.id, nth_error_app2 by lia. rewrite Nat.sub_diag. reflexivity.
+  Qed.
+
+  Lemma slice_app_l {A} (l a : list A) lo hi : (lo <= hi)%N -> (hi <= len l)%N -> slice (l ++ a) lo hi = slice l lo hi.
+  Proof.
+    unfold slice, len. intros H1 H2. rewrite skipn_app, firstn_app.
+    replace (N.to_nat (hi - lo) - length (skipn (N.to_nat lo) l)) with 0.
+    - cbn. rewrite app_nil_r. reflexivity.
+    - rewrite skipn_length. lia.
+  Qed.
+
+  Lemma slice_app_exact {A} (l o r : list A) : slice (l ++ o ++ r) (len l) (len l + len o) = o.
+  Proof.
+    unfold slice, len. replace (N.to_nat (N.of_nat (length l) + N.of_nat (length o) - N.of_nat (length l))) with (length o) by lia.
+    rewrite Nat2N.id, skipn_app, Nat.sub_diag, skipn_all. cbn.
+    rewrite firstn_app, Nat.sub_diag, firstn_all. cbn. apply app_nil_r.
+  Qed.
+
+  Lemma WFwalk_app srcl outl ns c es ns1 c1 :
+    WFwalk srcl outl ns c es ns1 c1 -> forall es' ns' c',
+      WFwalk srcl outl ns1 c1 es' ns' c' -> WFwalk srcl outl ns c (es ++ es') ns' c'.
+  Proof.
+    induction 1 as [|srcl outl ns c e r ns1 c1 ns2 c2 He Hr IH]; intros es' ns' c' H'; cbn; [exact H'|].
+    eapply WFW_cons; eauto.
+  Qed.
+
+  Lemma WFentry_extend srcl outl ns c e ns' c' a b :
+    WFentry srcl outl ns c e ns' c' -> WFentry (srcl ++ a) (outl ++ b) ns c e ns' c'.
+  Proof.
+    intro H. destruct H.
+    - apply WFE_unmod with (x := x); auto using nthN_app_l.
+    - eapply WFE_rewr with (x := x) (body := body) (nsb := nsb); auto using nthN_app_l.
+      + rewrite len_app. lia.
+      + rewrite slice_app_l; auto.
+  Qed.
+
+  Lemma WFwalk_extend srcl outl ns c es ns' c' a b :
+    WFwalk srcl outl ns c es ns' c' -> WFwalk (srcl ++ a) (outl ++ b) ns c es ns' c'.
+  Proof.
+    induction 1 as [|srcl outl ns c e r ns1 c1 ns2 c2 He Hr IH]; [constructor|].
+    eapply WFW_cons; eauto using WFentry_extend.
+  Qed.
+
+  Lemma WFwalk_weaken_ns srcl outl ns c es ns' c' k :
+    WFwalk srcl outl ns c es ns' c' -> (k <= ns)%N -> exists ns'', WFwalk srcl outl k c es ns'' c' /\ (ns'' <= ns')%N.
+  Proof.
+    intros H Hk. destruct H as [|srcl outl ns c e r ns1 c1 ns2 c2 He Hr].
+    - exists k. split; [constructor | exact Hk].
+    - exists ns2. split; [|lia]. eapply WFW_cons; [|exact Hr].
+      destruct He; [eapply WFE_unmod | eapply WFE_rewr]; eauto; lia.
+  Qed.
+
+  (** ** the detail computed by [expand_d] is a well-formed walk of the substituted body *)
+
+  Definition detail_ok (i : instr) (d : detail) : Prop :=
+    let '(o, (src, rg, sub)) := d in
+    exists body nsb, inst i = Some (body, src) /\ rg = (0%N, len o) /\ WFwalk body o 0 0 sub nsb (len o).
+
+  Lemma expand_d_list_wf (rec : instr -> res (option detail))
+        (Hrec : forall j d, rec j = Ok (Some d) -> detail_ok j d) :
+    forall l pre k acc es ns acc' es',
+      k = len pre -> (ns <= k)%N -> WFwalk pre acc 0 0 es ns (len acc) ->
+      expand_d_list rec l k acc es = Ok (acc', es') ->
+      exists ns', WFwalk (pre ++ l) acc' 0 0 es' ns' (len acc').
+  Proof.
+    induction l as [|j t IH]; intros pre k acc es ns acc' es' Hk Hns Hw H; cbn in H.
+    - inversion H; subst. rewrite app_nil_r. eauto.
+    - destruct (rec j) as [[[o [[src' rg] sub]]|]| |] eqn:Hj; try discriminate.
+      + (* rewritten *)
+        apply Hrec in Hj. destruct Hj as [body [nsb [Hi [_ Hsub]]]].
+        replace (pre ++ j :: t) with ((pre ++ [j]) ++ t) by (rewrite <- app_assoc; reflexivity).
+        eapply IH in H; [exact H | subst k; rewrite len_app; cbn; lia | apply N.le_refl |].
+        eapply WFwalk_app.
+        * apply WFwalk_extend with (a := [j]) (b := o). exact Hw.
+        * rewrite len_app. eapply WFW_cons; [|constructor].
+          eapply WFE_rewr with (x := j) (body := body) (nsb := nsb); try lia.
+          -- rewrite len_app. lia.
+          -- subst k. apply nthN_app_len.
+          -- exact Hi.
+          -- replace (acc ++ o) with (acc ++ o ++ []) by (rewrite app_nil_r; reflexivity).
+             rewrite slice_app_exact. replace (len acc + len o - len acc)%N with (len o) by lia. exact Hsub.
+      + (* kept *)
+        replace (pre ++ j :: t) with ((pre ++ [j]) ++ t) by (rewrite <- app_assoc; reflexivity).
+        eapply IH in H; [exact H | subst k; rewrite len_app; cbn; lia | apply N.le_refl |].
+        eapply WFwalk_app.
+        * apply WFwalk_extend with (a := [j]) (b := [j]). exact Hw.
+        * rewrite len_app. replace (len acc + len [j])%N with (N.succ (len acc)) by (cbn; lia).
+          eapply WFW_cons; [|constructor].
+          apply WFE_unmod with (x := j); try lia.
+          -- subst k. apply nthN_app_len.
+          -- apply nthN_app_len.
+  Unshelve. all: exact 0%N.
+  Qed.
+
+  Lemma expand_d_wf : forall fuel path i d, expand_d inst fuel path i = Ok (Some d) -> detail_ok i d.
+  Proof.
+    induction fuel as [|f IH]; intros path i d H; cbn in H; [discriminate|].
+    destruct (mem_instr i path); [discriminate|].
+    destruct (inst i) as [[body src]|] eqn:Hi; [|discriminate].
+    destruct (expand_d_list (expand_d inst f (i :: path)) body 0 [] []) as [[acc es]| |] eqn:Hl; cbn in H; try discriminate.
+    inversion H; subst. cbn.
+    eapply (expand_d_list_wf _ (IH (i :: path)) body [] 0%N [] [] 0%N) in Hl; [|reflexivity|apply N.le_refl|constructor].
+    destruct Hl as [ns' Hw]. exists body, ns'. auto.
+  Qed.
+
+  (** ** program level, for programs whose expansions emit no hoisted instruction *)
+
+  (** the named, decidable class of the open finding [hoisted-declaration-in-expansion], negated:
+      no source instruction is, and no top-level expansion emits, a DECLARE *)
+  Definition no_hoist_b (fuel : nat) (src : list instr) : bool :=
+    forallb (fun i => not_hoisted i &&
+                      match expand_d inst fuel [] i with
+                      | Ok (Some (o, _)) => forallb not_hoisted o
+                      | _ => true
+                      end) src.
+
+  Lemma append_loop_no_hoist base : forall l p lo hi sub,
+      forallb not_hoisted l = true ->
+      append_loop base l p lo hi sub = (add_instructions p l, (lo, hi, sub)).
+  Proof.
+    induction l as [|i t IH]; intros p lo hi sub H; cbn [append_loop]; [reflexivity|].
+    cbn in H. apply andb_true_iff in H. destruct H as [Hi Ht].
+    assert (E : N.eqb (len (body p)) (len (body (add_instruction p i))) = false).
+    { rewrite add_instruction_body. cbn. rewrite Hi. rewrite len_app. cbn. apply N.eqb_neq. lia. }
+    rewrite E. rewrite IH by exact Ht. reflexivity.
+  Qed.
+
+  Lemma expand_program_sm_from_wf fuel : forall src pre k p m ns p' m',
+      no_hoist_b fuel src = true ->
+      k = len pre -> (ns <= k)%N -> WFwalk pre (body p) 0 0 m ns (len (body p)) ->
+      expand_program_sm_from inst fuel src k p m = Ok (p', m') ->
+      exists ns', WFwalk (pre ++ src) (body p') 0 0 m' ns' (len (body p')).
+  Proof.
+    induction src as [|i t IH]; intros pre k p m ns p' m' Hn Hk Hns Hw H; cbn in H.
+    - inversion H; subst. rewrite app_nil_r. eauto.
+    - cbn in Hn. rewrite !andb_true_iff in Hn. destruct Hn as [[Hi Ho] Ht].
+      replace (pre ++ i :: t) with ((pre ++ [i]) ++ t) by (rewrite <- app_assoc; reflexivity).
+      destruct (expand_d inst fuel [] i) as [[[o [[src' [lo hi]] sub]]|]| |] eqn:Hd; try discriminate.
+      + (* expanded *)
+        pose proof (expand_d_wf _ _ _ _ Hd) as [bdy [nsb [Hinst [_ Hsub]]]].
+        unfold append_expansion in H. rewrite append_loop_no_hoist in H by exact Ho.
+        rewrite add_instructions_body in H.
+        assert (Ef : filter not_hoisted o = o).
+        { clear - Ho. induction o as [|x r IHo]; cbn in *; [reflexivity|].
+          apply andb_true_iff in Ho. destruct Ho as [Hx Hr]. rewrite Hx, IHo; auto. }
+        rewrite Ef in H.
+        assert (Eb : body (add_instructions p o) = body p ++ o) by (rewrite add_instructions_body, Ef; reflexivity).
+        destruct (N.ltb (len (body p)) (len (body p ++ o))) eqn:Hlt.
+        * eapply IH in H; [exact H | exact Ht | subst k; rewrite len_app; cbn; lia | apply N.le_refl |].
+          rewrite Eb. eapply WFwalk_app.
+          -- apply WFwalk_extend with (a := [i]) (b := o). exact Hw.
+          -- eapply WFW_cons; [|constructor].
+             eapply WFE_rewr with (x := i) (body := bdy) (nsb := nsb); try lia.
+             ++ rewrite len_app. lia.
+             ++ subst k. apply nthN_app_len.
+             ++ exact Hinst.
+             ++ replace (body p ++ o) with (body p ++ o ++ []) at 1 by (rewrite app_nil_r; reflexivity).
+                rewrite len_app. rewrite slice_app_exact.
+                replace (len (body p) + len o - len (body p))%N with (len o) by lia. exact Hsub.
+        * (* the expansion is empty: no entry *)
+          assert (o = []).
+          { apply N.ltb_ge in Hlt. rewrite len_app in Hlt. destruct o; [reflexivity|]. cbn in Hlt. lia. }
+          subst o. pose proof (WFwalk_extend _ _ _ _ _ _ _ [i] [] Hw) as Hw'. rewrite app_nil_r in Hw'.
+          eapply IH in H; [exact H | exact Ht | subst k; rewrite len_app; cbn; lia | | rewrite Eb, app_nil_r; exact Hw']. lia.
+      + (* kept *)
+        eapply IH in H; [exact H | exact Ht | subst k; rewrite len_app; cbn; lia | apply N.le_refl |].
+        rewrite add_instruction_body. cbn. rewrite Hi.
+        rewrite len_app. replace (N.pred (len (body p) + len [i])) with (len (body p)) by (cbn; lia).
+        eapply WFwalk_app.
+        * apply WFwalk_extend with (a := [i]) (b := [i]). exact Hw.
+        * replace (len (body p) + len [i])%N with (N.succ (len (body p))) by (cbn; lia).
+          eapply WFW_cons; [|constructor].
+          apply WFE_unmod with (x := i); try lia.
+          -- subst k. apply nthN_app_len.
+          -- apply nthN_app_len.
+  Unshelve. all: exact 0%N.
+  Qed.
+
+  Theorem expand_program_sm_wf fuel p p' m :
+    expand_program_sm inst fuel p = Ok (p', m) -> no_hoist_b fuel (body p) = true ->
+    WFmap (body p) (body p') m.
+  Proof.
+    unfold expand_program_sm. intros H Hn.
+    eapply (expand_program_sm_from_wf fuel (body p) [] 0%N _ _ 0%N) in H.
+    - exact H.
+    - exact Hn.
+    - reflexivity.
+    - apply N.le_refl.
+    - cbn. constructor.
+  Qed.
+End WFSec.
+
+(** ** soundness of the instance checker [chk_wfmap] *)
+
+Section ChkWF.
+  Variable inst : instr -> option (list instr * calsrc).
+
+  Fixpoint entry_ind' (P : entry -> Prop)
+           (HU : forall s t, P (EUnmod s t))
+           (HR : forall s src lo hi sub, Forall P sub -> P (ERewr s src lo hi sub))
+           (e : entry) : P e :=
+    match e with
+    | EUnmod s t => HU s t
+    | ERewr s src lo hi sub =>
+        HR s src lo hi sub
+           ((fix go (l : list entry) : Forall P l :=
+               match l with
+               | [] => Forall_nil P
+               | x :: t => Forall_cons x (entry_ind' P HU HR x) (go t)
+               end) sub)
+    end.
+
+  Definition entry_sound (e : entry) : Prop :=
+    forall srcl outl ns c ns' c',
+      chk_entry inst srcl outl (ns, c) e = Some (ns', c') -> WFentry inst srcl outl ns c e ns' c'.
+
+  Lemma chk_walk_sound es (IH : Forall entry_sound es) :
+    forall srcl outl ns c ns' c',
+      chk_walk inst srcl outl es (ns, c) = Some (ns', c') -> WFwalk inst srcl outl ns c es ns' c'.
+  Proof.
+    induction IH as [|e r He _ IHr]; intros srcl outl ns c ns' c' H; cbn in H.
+    - inversion H; subst. constructor.
+    - destruct (chk_entry inst srcl outl (ns, c) e) as [[ns1 c1]|] eqn:E; [|discriminate].
+      eapply WFW_cons; [apply He; exact E | apply IHr; exact H].
+  Qed.
+
+  Lemma inner_walk_eq body sl : forall sub st,
+      (fix walk (l : list entry) (st' : N * N) : option (N * N) :=
+         match l with
+         | [] => Some st'
+         | e' :: r =>
+             match chk_entry inst body sl st' e' with
+             | Some st'' => walk r st''
+             | None => None
+             end
+         end) sub st = chk_walk inst body sl sub st.
+  Proof.
+    induction sub as [|e r IH]; intro st; [reflexivity|]. cbn [chk_walk].
+    destruct (chk_entry inst body sl st e); [apply IH | reflexivity].
+  Qed.
+
+  Lemma chk_entry_sound : forall e, entry_sound e.
+  Proof.
+    apply entry_ind'; unfold entry_sound.
+    - intros s t srcl outl ns c ns' c' H. cbn [chk_entry] in H.
+      destruct (N.leb ns s && N.eqb t c) eqn:Hc; [|discriminate].
+      apply andb_true_iff in Hc. destruct Hc as [Hns Ht]. apply N.leb_le in Hns. apply N.eqb_eq in Ht. subst t.
+      destruct (nthN srcl s) as [x|] eqn:Hx; [|discriminate].
+      destruct (nthN outl c) as [y|] eqn:Hy; [|discriminate].
+      destruct (instr_eqb x y) eqn:Exy; [|discriminate].
+      apply instr_eqb_spec in Exy. subst y. inversion H; subst. eapply WFE_unmod; eauto.
+    - intros s src lo hi sub IH srcl outl ns c ns' c' H. cbn [chk_entry] in H.
+      destruct (N.leb ns s && N.eqb lo c && N.leb lo hi && N.leb hi (len outl)) eqn:Hc; [|discriminate].
+      rewrite !andb_true_iff in Hc. destruct Hc as [[[Hns Hlo] Hlh] Hhi].
+      apply N.leb_le in Hns, Hlh, Hhi. apply N.eqb_eq in Hlo. subst lo.
+      destruct (nthN srcl s) as [x|] eqn:Hx; [|discriminate].
+      destruct (inst x) as [[body src']|] eqn:Hi; [|discriminate].
+      destruct (calsrc_eqb src src') eqn:Es; [|discriminate].
+      apply calsrc_eqb_spec in Es. subst src'.
+      rewrite inner_walk_eq in H.
+      destruct (chk_walk inst body (slice outl c hi) sub (0%N, 0%N)) as [[nsb curb]|] eqn:Hw; [|discriminate].
+      destruct (N.eqb curb (hi - c)) eqn:Ec; [|discriminate].
+      apply N.eqb_eq in Ec. subst curb. inversion H; subst.
+      eapply WFE_rewr; eauto. eapply chk_walk_sound; eauto.
+  Qed.
+
+  Theorem chk_wfmap_sound src out m : chk_wfmap inst src out m = true -> WFmap inst src out m.
+  Proof.
+    unfold chk_wfmap, WFmap. destruct (chk_walk inst src out m (0%N, 0%N)) as [[ns cur]|] eqn:Hw; [|discriminate].
+    intro H. apply N.eqb_eq in H. subst cur. exists ns.
+    eapply chk_walk_sound; eauto. apply Forall_forall. intros e _. apply chk_entry_sound.
+  Qed.
+
+  (** ** consequences of well-formedness for the queries *)
+
+  Lemma WFentry_shape srcl outl ns c e ns' c' :
+    WFentry inst srcl outl ns c e ns' c' ->
+    (c <= c')%N /\ (ns <= entry_source e)%N /\ ns' = N.succ (entry_source e) /\
+    (forall t, entry_contains e t = true <-> (c <= t < c')%N).
+  Proof.
+    intro H. destruct H; cbn.
+    - repeat split; try lia; rewrite N.eqb_eq in *; lia.
+    - repeat split; try lia; rewrite andb_true_iff, N.leb_le, N.ltb_lt in *; lia.
+  Qed.
+
+  Lemma WFwalk_queries srcl outl ns c es ns' c' :
+    WFwalk inst srcl outl ns c es ns' c' ->
+    (c <= c')%N /\ (ns <= ns')%N /\
+    (forall t, (c <= t < c')%N -> exists s, list_sources es t = [s]) /\
+    (forall t, (t < c \/ c' <= t)%N -> list_sources es t = []) /\
+    (forall s, length (list_targets es s) <= 1) /\
+    (forall s, (s < ns \/ ns' <= s)%N -> list_targets es s = []) /\
+    StronglySorted N.lt (map entry_source es) /\
+    Forall (fun e => (ns <= entry_source e < ns')%N) es.
+  Proof.
+    induction 1 as [|srcl outl ns c e r ns1 c1 ns2 c2 He Hr IH].
+    - cbn. repeat split; try (intros; lia); auto; constructor.
+    - destruct IH as [Hc [Hn [Hin [Hout [Hlen [Hnone [Hsort Hall]]]]]]].
+      apply WFentry_shape in He. destruct He as [Hc1 [Hs [Hns1 Hcont]]]. subst ns1.
+      unfold list_sources, list_targets in *. cbn [filter map].
+      repeat split; try lia.
+      + intros t Ht. destruct (entry_contains e t) eqn:Ec.
+        * apply Hcont in Ec. cbn [map]. rewrite (Hout t) by lia. eauto.
+        * assert (~ (c <= t < c1)%N) by (rewrite <- Hcont; congruence). apply Hin. lia.
+      + intros t Ht. destruct (entry_contains e t) eqn:Ec.
+        * apply Hcont in Ec. lia.
+        * apply Hout. lia.
+      + intros s. destruct (N.eqb (entry_source e) s) eqn:Es.
+        * apply N.eqb_eq in Es. cbn [length]. rewrite (Hnone s) by lia. cbn. lia.
+        * apply Hlen.
+      + intros s Hs'. destruct (N.eqb (entry_source e) s) eqn:Es.
+        * apply N.eqb_eq in Es. lia.
+        * apply Hnone. lia.
+      + constructor; [exact Hsort|]. rewrite Forall_map. eapply Forall_impl; [|exact Hall]. cbn. intros; lia.
+      + constructor; [lia|]. eapply Forall_impl; [|exact Hall]. cbn. intros; lia.
+  Qed.
+
+  Lemma sources_targets_inverse (m : list entry) s t :
+    In s (list_sources m t) <-> exists e, In e (list_targets m s) /\ entry_contains e t = true.
+  Proof.
+    unfold list_sources, list_targets. rewrite in_map_iff. split.
+    - intros [e [Hs He]]. apply filter_In in He. destruct He as [Hin Hc]. exists e. split; [|exact Hc].
+      apply filter_In. split; [exact Hin | apply N.eqb_eq; exact Hs].
+    - intros [e [He Hc]]. apply filter_In in He. destruct He as [Hin Hs]. exists e. split.
+      + apply N.eqb_eq; exact Hs.
+      + apply filter_In. split; auto.
+  Qed.
+End ChkWF.
+
+(** ** the full statement fails when an expansion emits a DECLARE:
+    [DEFCAL I 0: DECLARE mem BIT[1]; NOP] applied to [I 0] (names: I = 1, mem = 2).  After the
+    DECLARE is hoisted the nested entries still read Unmodified(0), Unmodified(1) although the
+    expansion's range is 0..1 and target 0 now holds the NOP. *)
+Definition kf19_cals : cals :=
+  {| gcals := [ {| gc_name := 1; gc_params := []; gc_qubits := [QF 0];
+                   gc_body := [IDeclare 2 0 1; IOther 0] |} ];
+     mcals := [] |}%N.
+Definition kf19_prog : program := {| regions := []; body := [IGate 1 [] [QF 0]] |}%N.
+
+Lemma expand_program_sm_wf_refuted :
+  exists cs fuel p p' m,
+    expand_program_sm (instantiate cs) fuel p = Ok (p', m) /\
+    no_hoist_b (instantiate cs) fuel (body p) = false /\
+    ~ WFmap (instantiate cs) (body p) (body p') m.
+Proof.
+  exists kf19_cals, 5, kf19_prog,
+    {| regions := [(2, (0, 1))]; body := [IOther 0] |}%N,
+    [ERewr 0 (CSGate 1 [] [QF 0]) 0 1 [EUnmod 0 0; EUnmod 1 1]]%N.
+  split; [vm_compute; reflexivity|]. split; [vm_compute; reflexivity|].
+  intros [ns H]. cbn [body kf19_prog] in H.
+  inversion H as [|? ? ? ? ? ? ? ? ? ? He Hr]; subst. clear H Hr.
+  inversion He as [|? ? ? ? ? ? ? ? ? ? ? Hns Hc Hhi Hx Hi Hsub]; subst. clear He.
+  vm_compute in Hx. inversion Hx; subst. clear Hx.
+  vm_compute in Hi. inversion Hi; subst. clear Hi.
+  inversion Hsub as [|? ? ? ? ? ? ? ? ? ? He' Hr']; subst. clear Hsub Hr'.
+  inversion He' as [? ? ? ? ? ? Hns' Hx' Hy'|]; subst.
+  vm_compute in Hx'. vm_compute in Hy'. congruence.
 Qed.
